@@ -196,13 +196,9 @@ def main():
         'check_next',
         r'check_static_offset<static_slot_error>\(\s*\n\s*this->slots_strides\[([^\]]+)\], slot\);\s*\n\s*check_static_offset<static_stride_error>\(\s*\n'
         r'\s*this->slots_strides\[([^\]]+)\], stride\);', c, CORE)
-    one('check_first',
-        r'(?:check_static_offset<static_slot_error>\(\s*static_offsets<method>::slots\[0\]'
-        r'|slot = static_offsets<method>::slots\[0\];\s*(?:if constexpr \([^()]*runtime_checks>\) \{\s*)?check_static_offset<static_slot_error>\(\s*slot),'
-        r'\s*this->slots_strides\[0\]\);', c, CORE, count=2)
+    # the first-parameter check and the reads of static_offsets<method>::slots / strides are translated with the walk
+    # (translators/walk.py -> Gen/GenWalk.v: WCheck, RStaticSlot, RStaticStride), not anchored here
     one('check_cmp', r'if \(actual != expected\) \{', c, CORE)
-    one('static_reads',
-        r'slot = static_offsets<method>::slots\[VirtualArg\];\s*\n\s*stride = static_offsets<method>::strides\[VirtualArg - 1\];', c, CORE)
 
     # index expressions -> (coefficient of arity, coefficient of i, constant), for the forms the model knows
     def linear(name, expr, var):
